@@ -50,3 +50,12 @@ Proof. exact ok_C19_serial_accepts_model. Qed.
 Theorem C19_checker_accepts_model_can : forall case meta toks s, rcv_split case = Some (0, meta, toks) -> ctoks_of toks = Some s ->
   Forall (fun t => match t with CF c => wf_canframe c = true | _ => True end) s -> ok_C19 case (run_RCV case) = [].
 Proof. exact ok_C19_can_accepts_model. Qed.
+
+(* the token-level statement has content: a script that ends in the middle of a link frame, after the first frame of a two-frame packet -
+   the poll never returns (RHang: block! spins on an exhausted device) and the receiver holds 1 frame of the 2 announced *)
+Require Import RP.Lemmas.LinkUsart RP.Spec.Frag.
+Example C19_tokens_nonvacuous :
+  let p := mkP true 9 [9; 8; 7; 6; 5; 4; 3; 2; 1; 0] in
+  exists f rest, frag_spec p = f :: rest /\
+    map (fun e : res * N * N => (snd (fst e), snd e)) (polls_held usart 100 None (map utok_of (link_frame (enc_of f) ++ [0; 5; 1; 2]))) = [(1, 2)].
+Proof. cbv zeta. eexists; eexists. split; [vm_compute; reflexivity|vm_compute; reflexivity]. Qed.
